@@ -19,6 +19,7 @@ import (
 	"strconv"
 	"strings"
 	"sync"
+	"syscall"
 	"time"
 
 	"simrt"
@@ -74,7 +75,8 @@ type Check struct {
 	// InProcess=false: a worker process dying while executing a case is an
 	// observation (product goroutine panicked / log.Fatal); DeathSig maps the
 	// captured stderr to a signature.
-	DeathSig func(stderr string) (sig, msg string)
+	DeathSig func(stderr string, cs json.RawMessage) (sig, msg string)
+	MemLimit uint64 // address-space limit of a worker process (0: 6 GiB)
 	Workers  int // 0: default
 }
 
@@ -550,7 +552,8 @@ func runParent(c *Check, tier string, root uint64) int {
 			fmt.Fprintf(os.Stderr, "HARNESS-TROUBLE check=%s worker died on seed %d:\n%s\n", c.ID, d.seed, tail(d.stderr, 4000))
 			return 2
 		}
-		sig, msg := c.DeathSig(d.stderr)
+		dcs := c.Gen(simrt.NewRand(d.seed), tier)
+		sig, msg := c.DeathSig(d.stderr, dcs)
 		if sig == "" {
 			fmt.Fprintf(os.Stderr, "HARNESS-TROUBLE check=%s worker died on seed %d (unclassified):\n%s\n", c.ID, d.seed, tail(d.stderr, 4000))
 			return 2
@@ -592,7 +595,10 @@ func runParent(c *Check, tier string, root uint64) int {
 				if bytes.Contains(outb, []byte("REPRODUCED property="+f.v.Property+" sig="+f.v.Sig)) && !bytes.Contains(outb, []byte("NOT-REPRODUCED property="+f.v.Property+" sig="+f.v.Sig)) {
 					ok = true
 				} else if c.DeathSig != nil {
-					if sig, _ := c.DeathSig(string(outb)); sig == f.v.Sig {
+					rb, _ := os.ReadFile(f.replay)
+					var rf ReplayFile
+					json.Unmarshal(rb, &rf)
+					if sig, _ := c.DeathSig(string(outb), rf.Case); sig == f.v.Sig {
 						ok = true
 					}
 				}
@@ -674,6 +680,22 @@ func runParent(c *Check, tier string, root uint64) int {
 	return 0
 }
 
+// limitMemory caps the address space of a worker so that a product bug that
+// allocates from a number read off a stream kills the worker (an observation)
+// instead of the sandbox.
+func limitMemory(c *Check) {
+	if os.Getenv("VERIF_ROLE") == "" || os.Getenv("VERIF_ROLE") == "parent" || os.Getenv("VERIF_ROLE") == "selftest" {
+		return
+	}
+	lim := c.MemLimit
+	if lim == 0 {
+		lim = 6 << 30
+	}
+	var rl syscall.Rlimit
+	rl.Cur, rl.Max = lim, lim
+	syscall.Setrlimit(syscall.RLIMIT_AS, &rl)
+}
+
 func tail(s string, n int) string {
 	if len(s) > n {
 		return s[len(s)-n:]
@@ -702,6 +724,9 @@ func Entry() int {
 		}
 	}
 	if role == "replay" {
+		if c := registry[id]; c != nil {
+			limitMemory(c)
+		}
 		return runReplay(os.Getenv("VERIF_REPLAY"))
 	}
 	if role == "selftest" {
@@ -716,6 +741,7 @@ func Entry() int {
 		fmt.Fprintln(os.Stderr)
 		return 2
 	}
+	limitMemory(c)
 	switch role {
 	case "worker":
 		runWorker(c, tier, root)
